@@ -5,35 +5,16 @@
 //!       SPEC side of the driver: a mismatch is an implementation-vs-spec difference on that cell.
 //!   `c04.redact <v> <because: n | object> <event object>` → `ok <object>` / `err`
 //!   `c04.content <v> <type> <content object>`             → `ok <object>` / `err`
-use h_util::{stok, Args, Rng};
+use h_lib::{
+    cj::{cj_obj_toks, cj_parse, cj_parse_obj, gen_canonical_value},
+    h_util, stok, version_id, Outcome, Req, Rng,
+};
 use ruma_common::{
     canonical_json::{redact, redact_content_in_place, redact_in_place, RedactedBecause},
     room_version_rules::RedactionRules,
     CanonicalJsonObject, CanonicalJsonValue, RoomVersionId,
 };
 use serde_json::{json, Value};
-
-use crate::{
-    cj::{cj_obj_toks, cj_parse, cj_parse_obj, gen_canonical_value},
-    drive, Outcome, Req,
-};
-
-pub fn version_id(v: u32) -> RoomVersionId {
-    match v {
-        1 => RoomVersionId::V1,
-        2 => RoomVersionId::V2,
-        3 => RoomVersionId::V3,
-        4 => RoomVersionId::V4,
-        5 => RoomVersionId::V5,
-        6 => RoomVersionId::V6,
-        7 => RoomVersionId::V7,
-        8 => RoomVersionId::V8,
-        9 => RoomVersionId::V9,
-        10 => RoomVersionId::V10,
-        11 => RoomVersionId::V11,
-        _ => panic!("bad version"),
-    }
-}
 
 /// The path callers use: room version id → rules.
 pub fn rules(v: u32) -> RedactionRules {
@@ -352,7 +333,7 @@ pub fn run(req: &str) -> Outcome {
 /// T1: the rules constants reached through `RoomVersionId::rules()`, as a Lean table.
 fn extract() -> String {
     let mut s = String::new();
-    s.push_str("-- GENERATED by `h-common c04 extract` from the running implementation. Do not edit.\n");
+    s.push_str("-- GENERATED by `h-c04 c04 extract` from the running implementation. Do not edit.\n");
     s.push_str("import RumaModel.Model.Redact\nnamespace Ruma.Generated.C04\nopen Ruma.Redact\n\n");
     s.push_str("/-- `RoomVersionId::V<n>.rules().redaction` for n = 1..11, read field by field. -/\n");
     s.push_str("def rulesTable : List (Nat × Rules) := [\n");
@@ -375,22 +356,12 @@ fn extract() -> String {
     s
 }
 
-pub fn main(args: &Args) {
-    match args.mode.as_str() {
-        "extract" => std::fs::write(&args.out, extract()).unwrap(),
-        "gen" => {
-            let mut rng = Rng::new(args.seed);
-            let mut reqs = cell_requests();
-            reqs.extend(random_requests(&mut rng, args.n));
-            drive(args, reqs, run);
-        }
-        "replay" => {
-            let o = run(args.replay.as_deref().expect("--replay"));
-            println!("{}", o.imp);
-            for t in o.t3 {
-                println!("T3: {t}");
-            }
-        }
-        m => panic!("unknown mode {m}"),
-    }
+fn gen(rng: &mut Rng, n: usize, _tier: &str) -> Vec<Req> {
+    let mut reqs = cell_requests();
+    reqs.extend(random_requests(rng, n));
+    reqs
+}
+
+fn main() {
+    h_lib::std_main(Some(&extract), &gen, &run);
 }
